@@ -91,11 +91,19 @@ impl Report {
         for e in &st.machinery_errors {
             self.machinery.push(format!("{label}: {e}"));
         }
+        if st.no_output_runs > 0 && self.prop != "C09" {
+            self.machinery.push(format!(
+                "{label}: {} generations returned no bytes (panic or Err) and could not be judged by this property's oracle — that is C09's finding; first: {}",
+                st.no_output_runs,
+                st.first_no_output.clone().unwrap_or_default()
+            ));
+        }
         let runs = self.coverage.entry("explorations").or_insert_with(|| json!([]));
         runs.as_array_mut().unwrap().push(json!({
             "config": label,
             "states": st.states, "transitions": st.transitions, "cut_by_box": st.pruned,
             "bfs_levels": st.levels, "cap_hit": st.cap_hit,
+            "fringe_states_depth_plus_1": st.fringe_states, "fringe_consumer_transitions": st.fringe_transitions,
             "deviation_runs": st.deviation_runs, "abstraction_splits": st.abstraction_splits,
             "longest_script_bytes": st.max_script_len,
             "transitions_per_chosen_opcode": st.op_transitions.iter().map(|(k,v)| (lexer::name(*k).to_string(), json!(v))).collect::<serde_json::Map<_,_>>(),
